@@ -815,6 +815,7 @@ def coq_terms():
         if o[0] == "resume_not_paused": return "(Raised (EResumeNotPaused %s))" % natlit(o[1])
         if o[0] == "resume_unknown": return "(Raised (EResumeUnknown %s))" % natlit(o[1])
         if o[0] == "failure_limit": return "(Raised (EFailureLimit %s))" % natlit(o[1])
+        if o[0] == "ckpt_missing": return "(Raised (ECkptMissing %s))" % natlit(o[1])
         raise ValueError("outcome %r has no model counterpart" % (o,))
 
     def smap(m):
